@@ -291,3 +291,27 @@ pub fn asm_step_long_k560() {
 pub fn asm_step_long_k100() {
     long_step(100)
 }
+
+/// Real step mode: one call = exactly one clock edge (counter automaton as the edge).
+#[cfg(kani)]
+#[kani::proof]
+#[kani::stub(emulator_2a_lib::machine::RawMachine::trigger_clock_edge, counter_edge)]
+#[kani::unwind(4)]
+pub fn real_step_is_one_edge() {
+    unsafe {
+        LEAVE = kani::any();
+        BACK = kani::any();
+        HALT = kani::any();
+        HALT_KIND = 1;
+    }
+    let c0: u16 = kani::any();
+    kani::assume(c0 < 60000);
+    let mut m = Machine::new(MachineConfig::default());
+    m.raw_mut().verif_set_ir((c0 >> 8) as u8);
+    m.raw_mut().verif_set_last_bus_read(c0 as u8);
+    m.set_step_mode(StepMode::Real);
+    m.trigger_key_clock();
+    assert!(count_of(&m) == c0 + 1, "Real mode: one clock edge per call");
+    assert!(m.step_mode() == StepMode::Real, "step mode unchanged");
+    kani::cover!(true, "reached");
+}
